@@ -2,6 +2,4 @@ package main
 
 import "verifharness/vkit"
 
-func c20(r *vkit.Run) {}
-func c21(r *vkit.Run) {}
 func c22(r *vkit.Run) {}
